@@ -20,7 +20,7 @@ def run(chk):
     chk.rule = ("op routes (same records as C12): Voronoi::build[_partial] vs Voronoi::from(&VoronoiIntegrator) compared bitwise (all tokens); compute_cell_integrals<VolumeCentroid> vs stored cells; "
                 "compute_face_integrals_sym<AreaCentroid> vs stored faces (bitwise, order included); sym vs filtered non-sym; with_faces route within tolerance; headers vs Model/Tess; "
                 "non-trivial = tessellation with >= 1 interior face")
-    chk.lean(['MVoro.Props.C13', 'MVoro.Proofs.TessBook'], [], [])
+    chk.lean(['MVoro.Props.C13', 'MVoro.Proofs.TessBook'], ['MVoro.Obl.DimInput', 'MVoro.Obl.Integrals'], ['DimInput', 'Integrals', 'Geom'])
     got = run_cells_op(chk, op='routes')
     if got is None:
         return
